@@ -146,7 +146,7 @@ pub fn run_c04(shard: &Shard) -> i32 {
             let n0 = *rng.pick(&[1usize, 2, 3, 4, 8]);
             let n1 = if rng.chance(1, 2) { Some(*rng.pick(&[1usize, 2, 3, 5, 8, 16])) } else { None };
             if rng.chance(1, 3) { spec.cfg.cutoff_k = 1 + rng.below(60); }
-            spec.cfg.par = Some(Par { n0, n1, mode: if rng.chance(2, 3) { ParMode::Delay(rng.next() >> 1) } else { ParMode::Free } });
+            spec.cfg.par = Some(Par { n0, n1, mode: if rng.chance(2, 3) && !spec.is_big() { ParMode::Delay(rng.next() >> 1) } else { ParMode::Free } });
             with_family!(spec.family, stress_case, &spec, PROP);
         }
         true
@@ -193,7 +193,8 @@ pub fn run_c03(shard: &Shard) -> i32 {
             let p = Profile { small: true, with_dominance: true, medium_share: 2, large_share: if shard.idx % 8 == 7 { 5 } else { 0 }, ..Default::default() };
             let mut spec = random_spec(rng, &p);
             let n = *rng.pick(&[2usize, 3, 4, 8, 16]);
-            spec.cfg.par = Some(Par { n0: n, n1: None, mode: if rng.chance(2, 3) { ParMode::Delay(rng.next() >> 1) } else { ParMode::Free } });
+            // injected delays on tiny / small instances only (a long search with a sleep at every event would take minutes)
+            spec.cfg.par = Some(Par { n0: n, n1: None, mode: if rng.chance(2, 3) && !spec.is_big() { ParMode::Delay(rng.next() >> 1) } else { ParMode::Free } });
             with_family!(spec.family, stress_case, &spec, PROP);
         }
         true
